@@ -17,8 +17,8 @@ Lemma deliver_cases : forall a p b k emb c,
   (exists d, deliver a p b k emb c =
              ev (EvDeliver p d) (set_ppc (upd (ppc c) p (if emb then PDelivered else PDirect)) c))
   \/ (exists o, deliver a p b k emb c =
-                if emb then set_ppc (upd (ppc c) p PEmbRet) (set_tret (upd (tret c) p (TErr o)) c)
-                else set_ppc (upd (ppc c) p PDone) (complete p (CErr o) c)).
+                if emb then set_ppc (upd (ppc c) p PEmbRet) (set_tret (upd (tret c) p (TErr o)) (release p c))
+                else set_ppc (upd (ppc c) p PDone) (reject_call p (CErr o) c)).
 Proof.
   intros a p b k emb c Hb Hk. unfold deliver. destruct b as [|j].
   - left. eexists. reflexivity.
